@@ -5,12 +5,7 @@ import re
 FIXED = ["x y", "a b c", "(", ")", "()", "x)", ";", "a;b", "#", "#b01x", ":kw", "'", "a'b", "\"", "a\"b", "é", "λx", "∀",
          ".def_0", ".def_1", ".def_2", ".def_3", "FV0", "FV1", "__x0", "ack0", "x!1", "let1", "Int1", "a.b", "x@0", "~",
          "-", "->", "<=>", "a-b", "$", "%%", "&", "*x", "_x", "x_", "?", "/x", "Real_", "bool", "INT", "1a", " ", "  x",
-         "x  ", "[i]", "{}", ",", "a,b", "`", "x`y", "a:b", "=x", "@", "^", "~!@$%^&*_-+=<>.?/", "x" * 40, "z3name!0",
-         # reserved words (symbols only when quoted), white space inside / at the end of a name
-         "let", "forall", "exists", "as", "par", "_", "!", "assert", "push", "reset", "check-sat", "match", "NUMERAL",
-         "abc\n", "a\nb", "x\t", "\ny", "p\r",
-         # spellings of literals and keywords: symbols when quoted
-         "5", "12", "1.5", "007", "#b01", "#xAF", "#b", "\"q\"", "\"", "-5", ".5", ":named", ":kw x", "bv5", "0x1F"]
+         "x  ", "[i]", "{}", ",", "a,b", "`", "x`y", "a:b", "=x", "@", "^", "~!@$%^&*_-+=<>.?/", "x" * 40, "z3name!0"]
 ALPHA = "abxyz019 _-.!@$%^&*+=<>?/~()[]{};:#'\",`éλ"
 
 
@@ -19,15 +14,15 @@ def is_literal_spelling(n):
 
 
 def admissible(n, allow_bar_backslash=False):
-    # names of theory symbols cannot be declared at all (|and| is and)
-    if not n or n in THEORY_SYMBOLS:
+    # the properties quantify over "any printable string except SMT-LIB reserved words, predefined theory symbols and
+    # literal spellings"
+    if not n or n in RESERVED or n in THEORY_SYMBOLS or is_literal_spelling(n):
         return False
-    if n in ("true", "false", "Bool", "Int", "Real", "String", "Array", "BitVec", "const"):
+    if n in ("true", "false", "Bool", "Int", "Real", "String", "Array", "BitVec", "const", "_", "!", "as", "par"):
         return False
     if not allow_bar_backslash and ("|" in n or "\\" in n):
         return False
-    # a quoted symbol holds printable characters and white space
-    return all(c.isprintable() or c in "\n\t\r" for c in n)
+    return all(c.isprintable() for c in n)
 
 
 def draw_name(rnd, allow_bar_backslash=False):
